@@ -60,7 +60,7 @@ impl Property for C09 {
         "C09"
     }
     fn rule(&self) -> String {
-        "Cases: ordered pairs (a,b) of operands of any two zoo types/lengths/provenances, with b related to a (independent, equal value at another length, a+-1, 2^m-a, exactly one bit flipped), and lists of same-type vectors to be sorted. Checked: ==,!=,<,<=,>,>=,partial_cmp in BOTH operand orders for the type pairing, Ord::cmp for same-type pairs, reflexivity of each operand, mutual consistency; sort() output non-decreasing by value and a permutation of the input. Enumerated: all (n,a,m,b) n,m<=4 (quick)/<=7 (thorough) x 19x19 pairings. Oracle: numeric comparison of the zero-extended bit lists. Non-trivial: lengths differ, or values unequal but identical in their most significant non-zero storage word of the wider word type (decision falls to a lower word); equal values of different length are a counted class. Distinct by hash of the case.".into()
+        "Cases: ordered pairs (a,b) of operands of any two zoo types/lengths/provenances, with b related to a (independent, equal value at another length, a+-1, 2^m-a, exactly one bit flipped), and lists of same-type vectors to be sorted. Checked: ==,!=,<,<=,>,>=,partial_cmp in BOTH operand orders for the type pairing, Ord::cmp for same-type pairs, reflexivity of each operand, mutual consistency; sort() output non-decreasing by value and a permutation of the input. Enumerated: all (n,a,m,b) n,m<=4 (quick)/<=7 (thorough) x 20x20 pairings. Oracle: numeric comparison of the zero-extended bit lists. Non-trivial: lengths differ, or values unequal but identical in their most significant non-zero storage word of the wider word type (decision falls to a lower word); equal values of different length are a counted class. Distinct by hash of the case.".into()
     }
     fn random_cases(&self, tier: Tier) -> u64 {
         tier.pick(300000, 9600000)
@@ -93,7 +93,7 @@ impl Property for C09 {
     }
     fn exhaustive_subspaces(&self, tier: Tier) -> Vec<String> {
         vec![
-            format!("all values of both operands for all lengths n,m<={} x 19x19 ordered type pairings (all comparison operators, both operand orders)", tier.pick(4, 7)),
+            format!("all values of both operands for all lengths n,m<={} x 20x20 ordered type pairings (all comparison operators, both operand orders)", tier.pick(4, 7)),
             "Bv/Bvd/Bvf<u64,2> pairs: lengths {1,5,63,64,65,100,128}^2 x provenance {canonical, spare 64, spare 200, long-then-truncated}^2 x {equal, low bit differs, top bit differs} x 3 values".into(),
         ]
     }
@@ -143,6 +143,49 @@ impl Property for C09 {
                                         return;
                                     }
                                 }
+                            }
+                        }
+                    }
+                }
+            }
+        }
+        // operands of thousands of bits and operands more than 1024 bits apart
+        for (lt, rt) in [(TID_D, TID_D), (TID_A, TID_A), (TID_D, TID_A), (TID_A, TID_D), (TID_D, 10u8), (10u8, TID_D), (TID_A, 18u8), (18u8, TID_D), (TID_D, 0u8), (TID_A, 10u8)] {
+            if !sh.mine() {
+                continue;
+            }
+            let rc = fixed_cap(rt).unwrap_or(usize::MAX);
+            let lc = fixed_cap(lt).unwrap_or(usize::MAX);
+            for n in [1023usize, 1024, 1025, 1099, 1290, 1343, 2048, 2500, 4097] {
+                let n = n.min(lc);
+                let dense = realize_val(&ValPat::Dense(vec![0x9E37_79B9_7F4A_7C15, 0xD1B5_4A32_D192_ED03, 0x0123_4567_89AB_CDEF, 0xFEDC_BA98_7654_3210]), n, 64);
+                let mut hot = Bits::zeros(n);
+                hot.0[n - 1] = true;
+                let mut hot_low = hot.clone();
+                for (i, b) in Bits::from_u128(0xdead, 16).0.iter().enumerate() {
+                    hot_low.0[i] = *b;
+                }
+                for a in [dense.clone(), hot.clone(), hot_low.clone(), Bits::ones(n)] {
+                    for m in [n, n.saturating_sub(64), n.saturating_sub(9), 64usize, 16, 5] {
+                        let m = m.min(rc).max(1);
+                        let k = n.min(m);
+                        let base = a.zext(k).zext(m);
+                        let mut vs = vec![base.clone()];
+                        let mut x = base.clone();
+                        x.0[0] = !x.0[0];
+                        vs.push(x);
+                        let mut x = base.clone();
+                        x.0[m - 1] = !x.0[m - 1];
+                        vs.push(x.clone());
+                        x.0[m / 2] = !x.0[m / 2];
+                        x.0[0] = !x.0[0];
+                        vs.push(x);
+                        vs.push(Bits::from_u128(5, m));
+                        vs.push(Bits::from_u128(0xdead, m));
+                        for b in vs {
+                            let c = C09Case::Pair { a: Operand::canon(lt, a.clone()), b: Operand::canon(rt, b) };
+                            if !f(c) {
+                                return;
                             }
                         }
                     }
